@@ -361,10 +361,23 @@ var replayExec = map[string]Executor{}
 
 // memoryGuard: a check must never take the machine down. Code under test that allocates without bound (a VM or library
 // function looping on a corrupted state; seen with a seeded change: 49 GB before the kernel killed the process) is stopped
-// when the process exceeds VERIF_MEM_LIMIT_GB (default 20) resident: the cases in flight are written as replays and
-// reported as a violation. The unchanged tree stays far below the limit (quick tier < 2 GB, thorough tier < 8 GB).
+// when the process exceeds VERIF_MEM_LIMIT_GB (default: 60 % of the machine's memory) resident: the cases in flight are written as replays and
+// reported as a violation. The unchanged tree stays below it (quick tier < 3 GB; the thorough tier of C19 peaks at 22 GB).
 func memoryGuard(prop string, seed int64, replaying string) {
-	limitGB := 20
+	// default: 60 % of the machine's memory (the thorough tier of C19 legitimately peaks at 22 GB), at least 8 GB
+	limitGB := 36
+	if b, err := os.ReadFile("/proc/meminfo"); err == nil {
+		for _, l := range strings.Split(string(b), "\n") {
+			if f := strings.Fields(l); len(f) >= 2 && f[0] == "MemTotal:" {
+				if kb, err := strconv.ParseInt(f[1], 10, 64); err == nil {
+					limitGB = int(kb * 6 / 10 >> 20)
+				}
+			}
+		}
+	}
+	if limitGB < 8 {
+		limitGB = 8
+	}
 	if v, err := strconv.Atoi(os.Getenv("VERIF_MEM_LIMIT_GB")); err == nil && v > 0 {
 		limitGB = v
 	}
